@@ -37,6 +37,8 @@ def corpus():
         {"kind": "representing", "dist": [["0", "1/2"], ["1", "1/2"]], "n": 1, "seed": 2},
         {"kind": "representing", "dist": [[format(i, "03b"), "1/8"] for i in range(8)], "n": 3, "seed": 5},
         {"kind": "combine_counts", "all": [[["00", 10], ["11", 20]]] * 3, "mults": [3], "alias": True},
+        {"kind": "expand_sizes", "ns": [30, 10, 5], "m": 20, "labels": [0, 0, 1]},
+        {"kind": "representing", "dist": [["10", "1/3"], ["11", "1/3"], ["12", "1/3"]], "n": 10, "seed": 7, "tuples": True},
     ]
 
 
@@ -57,6 +59,10 @@ def generate(rng, tier):
         m = rng.choice([1, 2, 3, 5, 8, 100, 2 ** 55])
         ns = [rng.choice([m, m + 1, rng.randrange(1, 4 * m + 2), rng.randrange(1, 30) * (1 if m > 1 else 1)]) for _ in range(k)]
         cases.append({"kind": "expand_sizes", "ns": ns, "m": m})
+        if k >= 2:
+            # the same (equal) circuit at several, also consecutive, positions of the request
+            labels = [rng.randrange(0, 2) for _ in range(k)]
+            cases.append({"kind": "expand_sizes", "ns": ns, "m": m, "labels": labels})
     for _ in range(400 if big else 60):
         k = rng.randrange(0, 6)
         mults = [rng.randrange(1, 4) for _ in range(k)]
@@ -104,6 +110,20 @@ def generate(rng, tier):
         ps = [b - a for a, b in zip([0] + cuts, cuts + [den])]
         dist = [[k2, rat(Fraction(p, den))] for k2, p in zip(keys, ps)]
         cases.append({"kind": "representing", "dist": dist, "n": rng.randrange(1, 40), "seed": rng.randrange(2 ** 31)})
+    for _ in range(200 if big else 40):
+        # outcomes that are tuples of small integers, not bits (entries of two digits included)
+        nk = rng.randrange(2, 6)
+        width = rng.randrange(1, 3)
+        keys = set()
+        while len(keys) < nk:
+            keys.add(",".join(str(rng.choice([0, 1, 2, 9, 10, 11, 12])) for _ in range(width)))
+        den = rng.choice([4, 8, 16])
+        cuts = sorted(rng.randrange(0, den + 1) for _ in range(nk - 1))
+        ps = [b - a for a, b in zip([0] + cuts, cuts + [den])]
+        if rng.random() < 0.5:
+            ps, den = [1] * nk, nk
+        dist = [[k2, rat(Fraction(p, den))] for k2, p in zip(sorted(keys), ps)]
+        cases.append({"kind": "representing", "dist": dist, "n": rng.randrange(1, 30), "seed": rng.randrange(2 ** 31), "tuples": True})
     for _ in range(300 if big else 60):
         # uniform distributions: the rounding stage leaves a deficit / excess of several shots
         w = rng.randrange(1, 5)
@@ -138,7 +158,7 @@ def run_impl(c):
             ns, mult = it._expand_sample_size(c["n"], c["m"])
             return {"ns": list(ns), "mult": mult}
         if k == "expand_sizes":
-            cs = list(range(len(c["ns"])))
+            cs = c.get("labels") or list(range(len(c["ns"])))
             a, b, m = it.expand_sample_sizes(cs, c["ns"], c["m"])
             return {"circuits": list(a), "ns": list(b), "mults": list(m)}
         if k == "combine_bitstrings":
@@ -166,10 +186,15 @@ def run_impl(c):
         if k == "representing":
             import numpy as np
             np.random.seed(c["seed"])
-            d = MOD({kk: float(unrat(p)) for kk, p in c["dist"]})
+            if c.get("tuples"):
+                d = MOD({tuple(int(x) for x in kk.split(",")): float(unrat(p)) for kk, p in c["dist"]})
+                show = lambda t: ",".join(str(b) for b in t)  # noqa: E731
+            else:
+                d = MOD({kk: float(unrat(p)) for kk, p in c["dist"]})
+                show = lambda t: "".join(str(b) for b in t)  # noqa: E731
             before = dict(d.distribution_dict)
             m = Measurements.get_measurements_representing_distribution(d, c["n"])
-            return {"res": ["".join(str(b) for b in t) for t in m.bitstrings],
+            return {"res": [show(t) for t in m.bitstrings],
                     "source_intact": before == d.distribution_dict}
     except ValueError as e:
         return {"err": "err:value", "msg": str(e)[:100]}
@@ -181,7 +206,7 @@ def requests(c, out):
     if k == "expand":
         return [("expand", {"n": c["n"], "m": c["m"]})]
     if k == "expand_sizes":
-        return [("expand_sizes", {"circuits": list(range(len(c["ns"]))), "ns": c["ns"], "m": c["m"]})]
+        return [("expand_sizes", {"circuits": c.get("labels") or list(range(len(c["ns"]))), "ns": c["ns"], "m": c["m"]})]
     if k == "combine_bitstrings":
         return [("combine_bitstrings", {"all": c["all"], "mults": c["mults"]})]
     if k == "combine_counts":
@@ -262,7 +287,8 @@ def oracle(c, out):
             pos += mu
         if tot != ns or pos != len(new) or len(mults) != len(ns):
             return ("expand-sizes", f"per-circuit totals {tot} differ from requested {ns}")
-        want = [i for i, mu in enumerate(mults) for _ in range(mu)]
+        labels = c.get("labels") or list(range(len(ns)))
+        want = [labels[i] for i, mu in enumerate(mults) for _ in range(mu)]
         if circ != want:
             return ("expand-sizes-order", f"expanded circuits {circ} not grouped in order {want}")
     elif k == "combine_bitstrings":
